@@ -17,7 +17,7 @@ OBLIGATION_MSGS = (
     'loop invariant not satisfied', 'failed assertion', 'possible truncation', 'recommendation not met',
     'arithmetic underflow/overflow', 'index out of bounds', 'panic', 'assert failed', 'possible division by zero',
     'termination', 'invariant not satisfied', 'call to non-terminating', 'constructed value may fail to meet its declared type invariant',
-    'cannot show invariant holds', 'unable to prove', 'possible overflow', 'possible underflow', 'unreachable code is reachable',
+    'cannot show invariant holds', 'unable to prove', 'fails to satisfy', 'possible overflow', 'possible underflow', 'unreachable code is reachable',
 )
 RLIMIT_MSGS = ('Resource limit (rlimit) exceeded', 'resource limit', 'rlimit')
 
